@@ -266,7 +266,11 @@ def inline_explaining_variables(tree):
             while changed:
                 changed = False
                 for i in range(len(body) - 1):
-                    s0, s1 = body[i], body[i + 1]
+                    s0 = body[i]
+                    j_ = i + 1
+                    while j_ < len(body) - 1 and isinstance(body[j_], ast.Pass):
+                        j_ += 1          # `pass` between the binding and its use changes nothing
+                    s1 = body[j_]
                     if not (isinstance(s0, ast.Assign) and len(s0.targets) == 1 and
                             isinstance(s0.targets[0], ast.Name)):
                         continue
